@@ -68,6 +68,7 @@ def check(ctx):
     ctx.rule("R3", "sibling closers agree on the resource slots of a spec", floor=2)
     ctx.rule("R4", "_end always closes (finally); the alias thread always closes /dev/null; ProcProxy.wait closes every handle it opened", floor=4)
     ctx.rule("R5", "pipe ends are closed idempotently: the fd field is cleared under the lock before os.close; wrappers never own the fd; fds 0-2 and sys.std* are never closed", floor=7)
+    ctx.rule("R7", "what a command edits in place is its own: the overlay mapping a stage receives is created for that stage (SubprocSpec.run() writes __ALIAS_NAME into it, handlers may add keys) - never an object that outlives the command", floor=1)
     ctx.rule("R6", "process-wide state (cwd, sys.std*, terminal foreground group) is changed in xonsh/procs only inside a paired construct; every way out of CommandPipeline.end (explicit raises included) hands the terminal back", floor=3)
 
     # ------------------------------------------------------------------ R1
@@ -388,6 +389,10 @@ def check(ctx):
         )
     if len(raises) < 1:
         raise AnalysisError(f"{PL}:CommandPipeline.end: no explicit raise found after helper expansion (2 confirmed by hand)")
+    # ---- R7: per-stage overlays are per-command objects (shared with C10.R7)
+    from .c10 import _overlay_ownership as _oo
+
+    _oo(ctx, ctx.repo.module("xonsh/procs/specs.py"), rule="R7")
 
 
 META = {
@@ -405,5 +410,5 @@ META = {
     "fd/child counts are run-time state and not decided.",
     "note": "Decides the listed structural clauses, not the behaviour. Exception edges are modelled only where the "
     "function's own try/with/finally makes them observable (DESIGN Appendix A).",
-    "more": 'Also decided: the descriptor handed to os.close is read inside the same locked block that clears the field (no check-then-act between concurrent closers).',
+    "more": 'Also decided: the descriptor handed to os.close is read inside the same locked block that clears the field (no check-then-act between concurrent closers). The overlay mapping a stage receives is created for that stage (module-level objects included).',
 }
